@@ -154,6 +154,16 @@ def main(argv):
     for name in getattr(mod, "REQUIRED_ORACLES", []):
         if m["oracle"].get(name, 0) <= 0:
             m["inconclusive"].append(f"deciding oracle '{name}' was evaluated 0 times")
+    # workload ingredients the check's reach depends on ("name" or "map:key" in the merged counters): a generator that silently
+    # stops producing one (e.g. because the repository changed under it) must not pass as "held"
+    for name in getattr(mod, "REQUIRED_COUNTERS", []):
+        if ":" in name:
+            a, b = name.split(":", 1)
+            val = (m["extra"].get(a) or {}).get(b, 0) if isinstance(m["extra"].get(a), dict) else 0
+        else:
+            val = m["extra"].get(name, 0)
+        if not val:
+            m["inconclusive"].append(f"workload ingredient '{name}' was observed 0 times")
     if m["evaluations"] <= 0:
         m["inconclusive"].append("no case was evaluated")
 
